@@ -23,6 +23,7 @@ use crate::absarch::{abstract_archive, blake_hex};
 use crate::compare::*;
 use crate::conc::*;
 use crate::hist::*;
+use crate::icept::IceptConfig;
 use crate::model::run_model;
 use crate::real::*;
 use crate::report::Report;
@@ -336,7 +337,89 @@ fn bits(s: &[bool]) -> String {
     if s.is_empty() { "-".into() } else { s.iter().map(|b| if *b { '1' } else { '0' }).collect() }
 }
 
+/// Interceptor for `late_removal_probe`: parks the FIRST removal of a block file (for at most `hold`), and
+/// notes whether `GC_LOCK` is removed while that removal is still parked.
+struct LateRemoval {
+    state: std::sync::Mutex<(bool, bool, bool)>, // (a block removal is parked, it has been released, the lock went while parked)
+    cv: std::sync::Condvar,
+    hold: std::time::Duration,
+    seen_first: std::sync::atomic::AtomicBool,
+}
+
+impl conserve::transport::verif_hooks::Interceptor for LateRemoval {
+    fn before(&self, op: &conserve::transport::verif_hooks::OpInfo) -> conserve::transport::verif_hooks::Decision {
+        use conserve::transport::verif_hooks::{Decision, Verb};
+        use std::sync::atomic::Ordering;
+        let path = op.path.trim_start_matches("./");
+        if op.verb == Verb::RemoveFile && (path.starts_with("d/") || op.path.contains("/d/") || path.len() == 128) && !self.seen_first.swap(true, Ordering::SeqCst) {
+            let mut st = self.state.lock().unwrap();
+            st.0 = true;
+            let deadline = std::time::Instant::now() + self.hold;
+            while !st.1 {
+                let left = deadline.saturating_duration_since(std::time::Instant::now());
+                if left.is_zero() {
+                    break;
+                }
+                st = self.cv.wait_timeout(st, left).unwrap().0;
+            }
+            st.0 = false;
+        } else if op.verb == Verb::RemoveFile && path.ends_with("GC_LOCK") {
+            let mut st = self.state.lock().unwrap();
+            if st.0 {
+                st.2 = true;
+            }
+            st.1 = true;
+            self.cv.notify_all();
+        }
+        Decision::Proceed
+    }
+    fn after(&self, _op: &conserve::transport::verif_hooks::OpInfo, _outcome: &conserve::transport::verif_hooks::Outcome) {}
+}
+
+/// Directed: a delete that has MORE THAN A THOUSAND unreferenced blocks to remove, on a multi-thread runtime.
+/// The collector may remove blocks only while it holds the lock: if the lock file goes while a block removal
+/// is still outstanding, a backup starting then can reuse a block that is about to disappear.  Real code only.
+fn late_removal_probe(report: &mut Report) {
+    use conserve::{Archive, BandId, DeleteOptions};
+    let work = tempfile::tempdir().unwrap();
+    let (src, arch) = (work.path().join("src"), work.path().join("arch"));
+    std::fs::create_dir(&src).unwrap();
+    for i in 0..1100u32 {
+        std::fs::write(src.join(format!("g{i:04}")), format!("garbage-to-be number {i}")).unwrap();
+    }
+    create_archive(&arch);
+    let p = BackupParams { max_entries_per_hunk: 100_000, max_block_size: 1 << 16, small_file_cap: 0, owner: true, exclude: vec![] };
+    let b0 = real_backup(&arch, &src, &p, IceptConfig::default());
+    std::fs::remove_dir_all(&src).unwrap();
+    std::fs::create_dir(&src).unwrap();
+    std::fs::write(src.join("keep"), b"the only file of the newer version").unwrap();
+    let b1 = real_backup(&arch, &src, &p, IceptConfig::default());
+    report.case("late-removal-probe", true);
+    if !b0.result.starts_with("result ok") || !b1.result.starts_with("result ok") {
+        return;
+    }
+    report.hit("directed:gc-with-more-than-1000-unreferenced-blocks");
+    let ic = std::sync::Arc::new(LateRemoval { state: std::sync::Mutex::new((false, false, false)), cv: std::sync::Condvar::new(), hold: std::time::Duration::from_millis(700), seen_first: std::sync::atomic::AtomicBool::new(false) });
+    let rt = tokio::runtime::Builder::new_multi_thread().worker_threads(4).enable_all().build().unwrap();
+    let ic2 = ic.clone();
+    let a2 = arch.clone();
+    let r = rt.block_on(async move {
+        let transport = conserve::transport::Transport::local(&a2).with_interceptor(ic2);
+        let archive = Archive::open(transport).await?;
+        archive.delete_bands(&[BandId::from(0)], &DeleteOptions { dry_run: false, break_lock: false }, conserve::monitor::test::TestMonitor::arc()).await
+    });
+    // give detached work (if any) a moment, then shut the runtime down
+    std::thread::sleep(std::time::Duration::from_millis(50));
+    drop(rt);
+    let lock_went_while_parked = ic.state.lock().unwrap().2;
+    let case = json!({"directed": "gc-with-1100-unreferenced-blocks", "runtime": "multi-thread(4)", "delete": "b0000", "result": r.as_ref().map(|_| "ok".to_string()).unwrap_or_else(|e| err_text(e))});
+    if lock_went_while_parked {
+        report.oracle_fail("gc-race:block-removal-outlives-lock", case, "the collector removed GC_LOCK while the removal of an unreferenced block was still outstanding: a backup starting at that moment sees no lock, lists that block as present and deduplicates against it", json!({"first_block_removal_parked_ms": 700}));
+    }
+}
+
 pub fn run(tier: &str, seed: u64, report: &mut Report) {
+    late_removal_probe(report);
     let thorough = tier == "thorough";
     let started = Instant::now();
     let budget_s = if thorough { 270 } else { 50 };
